@@ -51,7 +51,9 @@ T_Observe     == Is("Observe") /\ pc = "done"
                                                 /\ E.stopped[w] = (st[w] # "run")))
                  /\ UNCHANGED vars /\ Consume
 (* unrecorded steps: the kernel, and the tracer's step between resume and drop that has no hook *)
-Silent == /\ silent < MaxSilent /\ l' = l /\ silent' = silent + 1
+(* before the final observation every queued signal may still have to be dequeued, and every thread to run again *)
+MaxSilentNow == IF Is("Observe") THEN MaxSilent + 2 * Hdr.maxsend + 2 * Hdr.n ELSE MaxSilent
+Silent == /\ silent < MaxSilentNow /\ l' = l /\ silent' = silent + 1
           /\ \/ \E t \in T : Dequeue(t) \/ Run(t)
              \/ SoftErr
 TNext == T_StopProcess \/ T_Poll \/ T_Enumerate \/ T_AttachOk \/ T_AttachFail \/ T_Wait \/ T_Suspended \/ T_Stream \/ T_StreamsDone
